@@ -2,7 +2,11 @@ use parking_lot::RwLock;
 use std::collections::{hash_map::RandomState, HashMap};
 use std::hash::BuildHasher;
 use std::ops::{Deref, DerefMut};
-use std::time::{Duration, SystemTime, UNIX_EPOCH};
+use std::time::Duration;
+#[cfg(not(transparencies_stretto_verif))]
+use std::time::{SystemTime, UNIX_EPOCH};
+#[cfg(transparencies_stretto_verif)]
+use crate::verif::clock::{SystemTime, UNIX_EPOCH};
 
 use crate::CacheError;
 
